@@ -239,7 +239,7 @@ func (nw *Network) RunSchedule(sp ScheduleSpec) {
 					err = nw.startNode(x, o, cur, clonePeers(nw.Genesis))
 				}
 				if err == nil {
-					nw.Res.count("ffreset_restarts", 1)
+					nw.Res.count("ffreset_total", 1)
 					if sp.FFSingleServer {
 						others := []*SimNode{}
 						for _, q := range b {
@@ -247,7 +247,17 @@ func (nw *Network) RunSchedule(sp ScheduleSpec) {
 								others = append(others, q)
 							}
 						}
-						nw.FFServe = map[int]bool{others[rng.Intn(len(others))].Idx: true}
+						srv := others[rng.Intn(len(others))]
+						if rng.Intn(2) == 0 {
+							// the peer whose anchor is the oldest (a lagging server)
+							best := 1 << 30
+							for _, q := range others {
+								if b, _, err := q.Core.GetAnchorBlockWithFrame(); err == nil && b.Index() > 0 && b.Index() < best {
+									best, srv = b.Index(), q
+								}
+							}
+						}
+						nw.FFServe = map[int]bool{srv.Idx: true}
 					}
 				}
 			case "rejoin":
@@ -448,6 +458,8 @@ func (nw *Network) installCallbackSubmitter(n *SimNode, prob float64) {
 // FastForward runs the node's real fastForward routine.
 func (nw *Network) FastForward(n *SimNode) error {
 	prevRestores := n.App.Restores
+	ownLast := n.Node.GetLastBlockIndex()
+	nw.ffOffers = nil
 	err := n.Node.VerifFastForward()
 	nw.Res.count("step_fastforward", 1)
 	if err == nil {
@@ -456,10 +468,26 @@ func (nw *Network) FastForward(n *SimNode) error {
 			n.AnchorAtReset = map[int]int{}
 			n.AnchorRRAtReset = map[int]int{}
 		}
-		lb := n.Node.GetLastBlockIndex()
+		// the anchor the node adopted is the best offer it was given (highest
+		// block index above 0), independently of what its store now claims
+		lb, lrr := -1, -1
+		for _, o := range nw.ffOffers {
+			if o[0] > lb && o[0] > 0 {
+				lb, lrr = o[0], o[1]
+			}
+		}
+		if lb < 0 {
+			lb = n.Node.GetLastBlockIndex()
+			if b, e := n.Node.GetBlock(lb); e == nil {
+				lrr = b.RoundReceived()
+			}
+		}
 		n.AnchorAtReset[n.App.Epoch] = lb
-		if b, e := n.Node.GetBlock(lb); e == nil {
-			n.AnchorRRAtReset[n.App.Epoch] = b.RoundReceived()
+		n.AnchorRRAtReset[n.App.Epoch] = lrr
+		if lb < ownLast {
+			nw.Res.count("fastforward_to_anchor_below_own_last_block", 1)
+		}
+		if false {
 		}
 		n.known = map[uint32]int{}
 		n.has = map[string]bool{}
